@@ -42,7 +42,7 @@ func c08scalar(r *rand.Rand) interface{} {
 	switch r.Intn(5) {
 	case 0:
 		if r.Intn(3) == 0 {
-			return []float64{0.1, 19.99, 16777217, 1e-7, 2.5, 5e-324, 1e-12, 0.3, 0.30000000000000004, 0}[r.Intn(10)] // not all exactly representable in 32 bits; some closer than any tolerance
+			return []float64{0.1, 19.99, 16777217, 1e-7, 2.5, 5e-324, 1e-12, 0.3, 0.30000000000000004, 0, math.Copysign(0, -1), math.Copysign(0, -1)}[r.Intn(12)] // not all exactly representable in 32 bits; some closer than any tolerance
 		}
 		return float64(r.Intn(3))
 	case 1:
@@ -218,6 +218,9 @@ func genConds(r *rand.Rand, sep string, sample []interface{}) ([]cond, []string)
 					// near miss: a different number closer to the real one than any tolerance
 					f = []float64{math.Nextafter(rf, math.Inf(1)), math.Nextafter(rf, math.Inf(-1)), rf + 1e-10, rf - 3e-12}[r.Intn(4)]
 				}
+				if rf == 0 && r.Intn(2) == 0 {
+					f = -rf // 0 and -0 are the same number
+				}
 			}
 			c.val = f
 			spec += sep + strconv.FormatFloat(f, 'g', -1, 64) + sep + []string{"num", "float", "number", "numeric", "float64"}[r.Intn(5)]
@@ -296,8 +299,75 @@ func checkFilterLaw(unfiltered, got []interface{}, conds []cond) (ok bool, nPass
 	return
 }
 
+// c08collidingSpecs: two sub-key argument lists (and, in the second half, two separator settings) whose TEXTS coincide when
+// joined with some string J - blank, comma, nothing ... - although they mean different conditions. Each query is judged
+// against hand-computed members; whatever the library remembers about an earlier argument list must not answer a later one.
+func c08collidingSpecs(c *core.Ctx) {
+	r := c.R
+	c.Count("colliding-subkey-specs")
+	c.Eval()
+	J := []string{" ", ",", "", "|", "\x00", ";", "\n", "/"}[r.Intn(8)]
+	A := jv.M{"k": "v" + J + "w", "q": "1", "id": "A"}
+	B := jv.M{"k": "v", "w" + J + "q": "1", "id": "B"}
+	C := jv.M{"k": "v" + J + "w", "id": "C"}
+	D := jv.M{"k": "v", "q": "1", "id": "D"}
+	m := mxj.Map{"doc": jv.M{"item": jv.L{A, B, C, D}}}
+	ids := func(vs []interface{}, err error) string {
+		s := fmt.Sprint(err) + ":"
+		for _, v := range vs {
+			if mm, ok := v.(map[string]interface{}); ok {
+				s += fmt.Sprint(mm["id"])
+			}
+		}
+		return s
+	}
+	spec1 := []string{"k:v" + J + "w", "q:1"}
+	spec2 := []string{"k:v", "w" + J + "q:1"}
+	for round := 0; round < 2; round++ {
+		for i, sp := range [][]string{spec1, spec2, spec1} {
+			want := []string{"<nil>:A", "<nil>:B", "<nil>:A"}[i]
+			if got := ids(m.ValuesForPath("doc.item", sp...)); got != want {
+				c.Violate("c08-path-filter-law", "ValuesForPath with sub-keys answers with the members of another argument list whose joined text is the same", core.D{"subkeys": fmt.Sprintf("%q", sp), "joined_with": J, "members_expected": want, "members_observed": got})
+				return
+			}
+			if got := ids(m.ValuesForKey("item", sp...)); got != want {
+				c.Violate("c08-filter-law", "ValuesForKey with sub-keys answers with the members of another argument list whose joined text is the same", core.D{"subkeys": fmt.Sprintf("%q", sp), "joined_with": J, "members_expected": want, "members_observed": got})
+				return
+			}
+		}
+	}
+	// two separators, one a prefix of the other: separator + text of the argument coincide
+	s2 := []string{":", "|", ";"}[r.Intn(3)]
+	t := []string{"-", "x", "#"}[r.Intn(3)]
+	s1 := s2 + t
+	m2 := mxj.Map{"doc": jv.M{"item": jv.L{jv.M{"id": "7", "n": "P"}, jv.M{t + "id": t + "7", "n": "Q"}, jv.M{"id": t + "7", "n": "R"}}}}
+	names := func(vs []interface{}, err error) string {
+		s := fmt.Sprint(err) + ":"
+		for _, v := range vs {
+			if mm, ok := v.(map[string]interface{}); ok {
+				s += fmt.Sprint(mm["n"])
+			}
+		}
+		return s
+	}
+	defer mxj.SetFieldSeparator()
+	for round := 0; round < 2; round++ {
+		mxj.SetFieldSeparator(s1)
+		g1 := names(m2.ValuesForPath("doc.item", "id"+s1+"7"))
+		mxj.SetFieldSeparator(s2)
+		g2 := names(m2.ValuesForPath("doc.item", t+"id"+s2+t+"7"))
+		if g1 != "<nil>:P" || g2 != "<nil>:Q" {
+			c.Violate("c08-path-filter-law", "after a change of the field separator a sub-key argument is answered as it would have been under the other separator", core.D{"separators": []string{s1, s2}, "first_query_members": g1, "second_query_members": g2, "expected": "P then Q"})
+			return
+		}
+	}
+}
+
 func (c08) Case(c *core.Ctx) {
 	r := c.R
+	if c.Index%40 == 7 {
+		c08collidingSpecs(c)
+	}
 	keys := keyAlphabet(r, c07keys)
 	g := jv.GenOpt{Keys: keys, MaxFan: 3, WideProb: 25, ListInList: r.Intn(12) == 0, EmptyConts: true, Nulls: true, Scalars: c08scalar}.Fresh()
 	root := jv.M{"doc": g.Value(r, 1+r.Intn(5), false)}
